@@ -401,9 +401,18 @@ func concretise(c *fcase) *concreteResp {
 		unit[b] = blk
 		cr.body = append(cr.body, blk...)
 	}
+	// a stderr unit of the model stands for a burst of stderr records, one line each: usually one,
+	// now and then more than the 100 empty reads bufio tolerates (a responder logging a long trace)
+	burst := map[string]int{}
 	for _, e := range []string{"e1", "e2"} {
-		t := fmt.Sprintf("STDERR-%s-%d", e, rnd.Intn(1<<30))
-		unit[e] = []byte(t + "\n")
+		k := []int{1, 1, 1, 1, 2, 120, 350, 1}[rnd.Intn(8)]
+		burst[e] = k
+		id := rnd.Intn(1 << 30)
+		var b []byte
+		for i := 0; i < k; i++ {
+			b = append(b, fmt.Sprintf("STDERR-%s-%d-%d\n", e, id, i)...)
+		}
+		unit[e] = b
 	}
 	// payloads per record
 	type prec struct {
@@ -414,11 +423,22 @@ func concretise(c *fcase) *concreteResp {
 	for _, r := range c.Script {
 		var p []byte
 		for _, u := range r.U {
-			p = append(p, unit[u]...)
 			if r.T == "err" {
-				cr.errToks = append(cr.errToks, strings.TrimSuffix(string(unit[u]), "\n"))
+				lines := strings.SplitAfter(string(unit[u]), "\n")
+				lines = lines[:len(lines)-1]
+				cr.errToks = append(cr.errToks, strings.TrimSuffix(lines[0], "\n"), strings.TrimSuffix(lines[len(lines)-1], "\n"))
 				cr.errAll += string(unit[u])
+				if burst[u] > 1 {
+					for _, ln := range lines {
+						recs = append(recs, prec{"err", []byte(ln)})
+					}
+					continue
+				}
 			}
+			p = append(p, unit[u]...)
+		}
+		if r.T == "err" && len(p) == 0 && len(r.U) > 0 {
+			continue // went out as a burst
 		}
 		recs = append(recs, prec{r.T, p})
 	}
